@@ -199,3 +199,5 @@ def correspond(seed, tier):
                     dis.append(dict(id=rid, kind="readback-value", value=float(val), got=str(got)))
                     break
     return dict(evaluations=len(expect), disagreements=dis, worst_ratio=0.0, distribution=dist, samples=[], cases={})
+
+DRIVERS = ["drvp"]
